@@ -319,7 +319,14 @@ _v_as_sym = np.frompyfunc(as_sym, 1, 1)
 
 def as_sym_arr(A):
     if isinstance(A, np.ndarray):
-        return _v_as_sym(A) if A.size else A
+        if not A.size:
+            return A
+        r = _v_as_sym(A)
+        if not isinstance(r, np.ndarray):
+            o = np.empty((), dtype=object)
+            o[()] = r
+            r = o
+        return r
     return as_sym(A)
 
 
@@ -665,3 +672,13 @@ def model_value(model, v):
         a = x.approx(20)
         return float(Fraction(a.numerator_as_long(), a.denominator_as_long()))
     return None
+
+
+def subst(s, mapping):
+    """substitute input atoms (dict name -> number) in a Sym; returns a new Sym (concrete value not tracked: nan)"""
+    if s is NAN or s.is_const():
+        return s
+    pairs = [(CTX.atoms[k].n, rv(v)) for k, v in mapping.items()]
+    n = z3.substitute(s.n, *pairs)
+    d = z3.substitute(s.d, *pairs)
+    return Sym(n, d, float("nan"))
